@@ -142,7 +142,7 @@ def classify(ctx: Ctx, spec: dict):
             continue
         if f["clause"] == "export-error" and "export_error_backends" in spec and f["backend"] not in spec["export_error_backends"]:
             continue
-        if "backends" in spec and f["backend"] not in spec["backends"] and f["backend"] != "both" \
+        if "backends" in spec and f["backend"] not in spec["backends"] and f["backend"] not in ("both", "code") \
                 and f["clause"] != "polars-subquery":
             continue
         last, hist = F.behaviour_tags(f, f.get("heap_obs", []))
